@@ -161,7 +161,7 @@ def read_datagram(data):
 
 class UdpclWorld(object):
 
-    def __init__(self, mtu, prop='C13', comp=False, polling_ms=None):
+    def __init__(self, mtu, prop='C13', comp=False, polling_ms=None, recv_mtu=None):
         ''' comp: the two agents are the UDPCL daemons of two nodes of a composition (harness/drivers/comp_world.py):
         each sits at the well-known object path on its own bus and owns a bus name; send requests come from the
         BP agent of the sending node through the real adaptor, and the receiving node's adaptor pops the data. '''
@@ -186,6 +186,8 @@ class UdpclWorld(object):
             # share the paced transmit path with the transfer datagrams
             cfg_s.polling = [uconfig.PollConfig(address=RECEIVER[0], port=RECEIVER[1], interval_ms=int(polling_ms))]
         cfg_r = uconfig.Config()
+        # (the receiver's own MTU limits what *it* sends; what it must accept is up to the peers)
+        cfg_r.mtu_default = recv_mtu
         cfg_r._bus_conn = dbus.bus.BusConnection('udpcl-r')
         path_s = '/org/ietf/dtn/udpcl/Agent' if comp else '/org/ietf/dtn/udpcl/AgentS'
         path_r = '/org/ietf/dtn/udpcl/Agent' if comp else '/org/ietf/dtn/udpcl/AgentR'
